@@ -2,8 +2,34 @@ use super::hook::TaskLifeCycle;
 use crate::{
     ActTask, Result,
     model::Step,
-    scheduler::{Context, TaskState},
+    scheduler::{Context, NodeKind, Task, TaskState},
 };
+use std::sync::Arc;
+
+/// a child step (a step of a catch or of a timeout rule) is followed by the next step of its
+/// list, which runs beneath this task as well: the child is done when its whole chain is done
+fn is_chain_completed(child: &Arc<Task>) -> bool {
+    let mut cur = child.clone();
+    loop {
+        if !cur.state().is_completed() {
+            return false;
+        }
+        if !cur.is_kind(NodeKind::Step) {
+            return true;
+        }
+        let Some(next) = cur.node.next().upgrade() else {
+            return true;
+        };
+        match cur
+            .children()
+            .into_iter()
+            .find(|t| t.node.id() == next.id())
+        {
+            Some(t) => cur = t,
+            None => return true,
+        }
+    }
+}
 
 impl ActTask for Step {
     fn init(&self, ctx: &Context) -> Result<()> {
@@ -68,7 +94,7 @@ impl ActTask for Step {
                     task.exec(ctx)?;
                     is_next = true;
                 }
-                if task.state().is_completed() {
+                if is_chain_completed(task) {
                     count += 1;
                 }
             }
@@ -108,7 +134,7 @@ impl ActTask for Step {
                     task.exec(ctx)?;
                     return Ok(false);
                 }
-                if task.state().is_completed() {
+                if is_chain_completed(task) {
                     count += 1;
                 }
             }
